@@ -1110,6 +1110,89 @@ def gen_dasm_table(repo):
     return "\n".join(L), [pj, pp, prs]
 
 
+# ------------------------------------------------------------------------------------------------ wall-clock reads
+CLOCK_RE = re.compile(r"\b(?:Local|Utc|SystemTime|Instant|OffsetDateTime)\s*::\s*(?:now|today)\s*\(|\bUNIX_EPOCH\b|\.\s*elapsed\s*\(\s*\)|\blocaltime(?:_r)?\s*\(|\bclock_gettime\s*\(")
+# a function that PRODUCES a stamp to be written (the `None => now` arm of a pack routine, a creator, a formatter)
+STAMP_FN = re.compile(r"^(?:pack_\w+|create\w*|format|mk\w+)$")
+DECODE_FN = re.compile(r"unpack|decode|parse|display|fmt|to_json|from_|^get|read|catalog|tree|stat|glob|detok|disassem|list|show|print|dump|export")
+
+
+def clock_census(repo):
+    """every read of the wall clock in src/: (file, enclosing fn, fingerprint, class, why).  Class `stamp` is given
+    automatically when the enclosing function produces a stamp to be WRITTEN -- its name is `pack_*`, `create*`, `format`
+    or `mk*` and contains none of the decoding / rendering words -- otherwise the site needs a reviewed entry in the
+    `clock` list of c20_sites.json (classes `stamp`, `not-output`).  A clock read in a decoding / rendering path
+    (`unpack_*`, `fmt`, `to_json`, `tree`, ...) cannot be classified: the decoded value of an EXISTING stamp must not
+    depend on when or where it is read."""
+    root = os.path.join(repo, "src")
+    out = []
+    paths = []
+    for d, _, fs in os.walk(root):
+        for f in fs:
+            if f.endswith(".rs"):
+                paths.append(os.path.join(d, f))
+    paths.sort()
+    try:
+        table = {e["fp"]: e for e in json.load(open(TABLE)).get("clock", [])}
+    except Exception as ex:
+        raise TranslatorError("classification table unreadable: %r" % (ex,))
+    for e in table.values():
+        if e.get("class") not in ("stamp", "not-output") or not e.get("why"):
+            raise TranslatorError("bad clock entry %r" % (e,))
+    counts = {}
+    for p in paths:
+        rel = os.path.relpath(p, repo)
+        raw = open(p, encoding="utf-8", errors="replace").read()
+        if not CLOCK_RE.search(raw):
+            continue
+        s, fns, _ = parse_file(raw)
+        for m in CLOCK_RE.finditer(s):
+            f = inner_fn(fns, m.start())
+            fo = outer_fn(fns, m.start())
+            fname = f.name if f else "<top>"
+            ident = fo.ident if fo else "<top>"
+            a, b = stmt_bounds(s, m.start(), f)
+            stmt = re.sub(r"\s+", "", s[a:b])
+            key = (rel, ident, stmt)
+            k = counts.get(key, 0)
+            counts[key] = k + 1
+            fp = hashlib.sha256(("\x1f".join(key) + "\x1f%d" % k).encode()).hexdigest()[:12]
+            cls, why = None, ""
+            if fp in table:
+                cls, why = table[fp]["class"], "table: " + table[fp]["why"]
+            elif STAMP_FN.match(fname) and not DECODE_FN.search(fname):
+                cls, why = "stamp", "auto: `%s` produces a stamp to be written" % fname
+            out.append({"file": rel, "fn": ident, "fp": fp, "class": cls, "why": why, "line": s.count("\n", 0, m.start()) + 1,
+                        "stmt": stmt[:120], "by_table": fp in table})
+    return out, paths
+
+
+def gen_clock_sites(repo):
+    sites, paths = clock_census(repo)
+    files = sorted({x["file"] for x in sites})
+    cid = {"stamp": 0, "not-output": 1}
+    L = ["/-! GENERATED by /verif/translator/gen_c20.py from every .rs under src/ -- do not edit; regenerated on every run.",
+         "Census of wall-clock reads (`Local::now`, `Utc::now`, `SystemTime::now`, `Instant::now`, `UNIX_EPOCH`, `.elapsed()`).",
+         "Row = (file id, fingerprint, class id, 1 = classified by a reviewed table entry / 0 = by the automatic rule);",
+         "class ids: 0 = stamp (the value is WRITTEN as the stamp of something created or modified now: by design),",
+         "1 = not-output (reviewed: never reaches a C20 output), 99 = unclassified (a decoding / rendering path, or unknown). -/",
+         "namespace A2Verif.Gen.ClockSites", "",
+         "def sites : List (Nat × Nat × Nat × Nat) := [%s]" % ", ".join(
+             "(%d, %d, %d, %d)" % (files.index(x["file"]), int(x["fp"], 16), cid.get(x["class"], 99), 1 if x["by_table"] else 0) for x in sites),
+         "def siteCount : Nat := %d" % len(sites),
+         "/-- fingerprints of clock reads that are not classified as stamping -/",
+         "def unclassified : List Nat := [%s]" % ", ".join(str(int(x["fp"], 16)) for x in sites if x["class"] is None), ""]
+    for x in sites:
+        L.append("-- %s %s %s:%d fn %s : %s  [%s]" % ("CLOCK" if x["class"] else "UNCLASSIFIED-CLOCK", x["fp"], x["file"], x["line"], x["fn"], x["stmt"][:90], x["why"] or "no rule applies"))
+    L.append("-- files: " + "; ".join("%d=%s" % (i, f) for i, f in enumerate(files)))
+    L += ["", "end A2Verif.Gen.ClockSites", ""]
+    h = hashlib.sha256()
+    for p in paths:
+        h.update(open(p, "rb").read())
+    h.update(open(TABLE, "rb").read())
+    return "\n".join(L), h.hexdigest()[:16]
+
+
 def generate(repo):
     sites, paths = census(repo)
     table = load_table()
@@ -1196,8 +1279,9 @@ def generate(repo):
         d.update(open(p, "rb").read())
     d.update(open(TABLE, "rb").read())
     dg = d.hexdigest()[:16]
-    return ({"HashSites": "\n".join(L), "C20Flags": "\n".join(F), "DasmTable": dasm_src},
-            {"HashSites": dg, "C20Flags": dg, "DasmTable": d2.hexdigest()[:16]})
+    clock_src, clock_dg = gen_clock_sites(repo)
+    return ({"HashSites": "\n".join(L), "C20Flags": "\n".join(F), "DasmTable": dasm_src, "ClockSites": clock_src},
+            {"HashSites": dg, "C20Flags": dg, "DasmTable": d2.hexdigest()[:16], "ClockSites": clock_dg})
 
 
 if __name__ == "__main__":
